@@ -46,7 +46,10 @@ RULE = ("every shape m,l,n in 1..9 x 4 flag pairs with integer entries for matmu
         "slots re-filled right after a drop (address reuse). Zero dimensions: every entry point with a 0 somewhere in shapes "
         "from 0..3 (decided by the oracle: non-conformable must panic; zero columns with positive row counts must give the "
         "empty / all-zero product; a conformable product with a 0-row operand may only panic or return the correct value - the "
-        "panics are counted). non-trivial = distinct (op, flags/method, ownership, shapes, block size)")
+        "panics are counted). Massive cancellation: Gram-Schmidt pairs w = v - ((v.u)/(u.u))u against u for every length 2..64 and "
+        "some to 300, through every Vector.Vector form and as 1 x n / n x 2 matrix products; +-1 products cancelling exactly "
+        "except one product 2^-44/2^-48 (exact-equality regime) or 2^-60..2^-100 in the last n % 8 slots; exactly orthogonal "
+        "integer vectors. non-trivial = distinct (op, flags/method, ownership, shapes, block size)")
 EXHAUSTIVE = {"quick": False, "thorough": True}
 NOT_PROVED = [
     "hand-modelled and tied at run time only (bit-exact correspondence over all four ownership forms), not regenerated from "
@@ -308,6 +311,18 @@ def corpus():
         L_mb(0, 0, 3, 4, 1, A, B),
         L_mb(0, 0, 2, 2, 0, A[:4], B[:4]),       # bsize = 0: division by zero
     ]
+    # massive cancellation (round-10 seed C05w: a compensated-summation fallback of `dot` that dropped the last n % 8
+    # products when the sum had cancelled below n*eps*sum|x_k y_k|): a Gram-Schmidt pair of length 11, an exactly
+    # cancelling +-1 pattern of length 13 with one product 2^-48 in the remainder loop, orthogonal +-1 vectors of length 12
+    from .common import Rng
+    r = Rng(0xC05)
+    u, w = gs_pair(r, 11)
+    out.append(L_d("dvv", "dot", 1, (11, 11), w, u))
+    out.append(L_d("dvv", "t_dot_t", 2, (11, 11), u, w))
+    x, y = tiny_pair(r, 13, -48)
+    out.append(L_d("dvv", "dot_t", 3, (13, 13), x, y))
+    x, y = pm_orthogonal(r, 12)
+    out.append(L_d("dvv", "t_dot", 0, (12, 12), x, y))
     return out
 
 
@@ -462,6 +477,7 @@ def gen(rng, tier):
     strata(rng.fork("strata"), tier, lines, cover)
     alias_stratum(rng.fork("alias"), tier, lines, cover)
     zero_dim_stratum(rng.fork("zero"), tier, lines, cover)
+    cancel_stratum(rng.fork("cancel"), tier, lines, cover)
     return lines, cover
 
 
@@ -699,6 +715,121 @@ def strata(rng, tier, lines, cover):
 # The executor keeps buffers / Matrix / Vector objects in slots, so the SAME object can be both operands, two views of one
 # buffer can overlap, an operand can be mutated in place between two identical calls, and a slot can be re-filled right after
 # its previous contents were dropped (same size -> the allocator hands back the same address).  The model sees values only.
+# ------------------------------------------------------------------------------------------------
+# MASSIVE CANCELLATION: inner products whose value is far below the size of their terms (a fallback / re-summation route
+# that is only taken when |sum| <= n*eps*sum|x_k y_k| is otherwise never entered: integers, independent reals never do)
+def gs_pair(rng, n):
+    """u, v random; w = v - ((v.u)/(u.u)) u in f64: w.u is a rounding residue (~1e-17) of terms of size O(1)"""
+    u = [rng.normal() for _ in range(n)]
+    v = [rng.normal() for _ in range(n)]
+    vu = 0.0
+    uu = 0.0
+    for a, b in zip(v, u):
+        vu += a * b
+        uu += b * b
+    c = vu / uu if uu else 0.0
+    return u, [a - c * b for a, b in zip(v, u)]
+
+
+def tiny_pair(rng, n, e, slot=None, varied=False):
+    """products +-1 (or +-2^k when `varied`) that cancel exactly, except one product 2^e placed in the last n % 8 slots
+    (anywhere when n % 8 == 0): the exact value of x.y is 2^e"""
+    rem = n % 8
+    pos = slot if slot is not None else (n - 1 - rng.randint(0, rem - 1) if rem else rng.randint(0, n - 1))
+    x, y = [0.0] * n, [0.0] * n
+    others = [k for k in range(n) if k != pos]
+    if len(others) % 2:
+        others = others[:-1]          # one slot keeps the product 0 * 0
+    sign = 1.0
+    for k in others:
+        sc = 2.0 ** rng.randint(-8, 8) if varied else 1.0
+        x[k], y[k] = sign * sc, 1.0 / sc
+        sign = -sign
+    h = e // 2
+    x[pos], y[pos] = 2.0 ** h, 2.0 ** (e - h)
+    return x, y
+
+
+def pm_orthogonal(rng, n):
+    """two +-1 vectors (n even) with inner product exactly 0"""
+    x = [float(rng.choice([-1, 1])) for _ in range(n)]
+    idx = list(range(n))
+    rng.shuffle(idx)
+    flip = set(idx[:n // 2])
+    return x, [(-a if k in flip else a) for k, a in enumerate(x)]
+
+
+def cancel_stratum(rng, tier, lines, cover):
+    quick = tier != "thorough"
+    for k_ in ("cancel_gs", "cancel_tiny_exact", "cancel_tiny_tie", "cancel_zero", "cancel_matrix"):
+        cover[k_] = 0
+    q = 0
+
+    def mo():
+        nonlocal q
+        q += 1
+        return METHS[q % 4], (q // 4) % 4
+
+    lens = list(range(2, 65)) + [100, 127, 129, 200, 255, 257, 300] + [rng.randint(65, 300) for _ in range(4 if quick else 40)]
+    # (a) Gram-Schmidt pairs, both operand orders, every method name / ownership form in rotation (thorough: all 16)
+    for n in lens:
+        for rep in range(1 if quick else 4):
+            u, w = gs_pair(rng, n)
+            forms = [mo(), mo()] if quick else [(m_, o_) for m_ in METHS for o_ in range(4)]
+            for k, (meth, own) in enumerate(forms):
+                a, b = (w, u) if k % 2 == 0 else (u, w)
+                lines.append(L_d("dvv", meth, own, (n, n), a, b))
+                cover["cancel_gs"] += 1
+            if n <= 40 or not quick:
+                # the same pair as a 1 x n times n x 1 product through every other entry point
+                meth, own = mo()
+                lines.append(L_mm(0, 0, 1, n, w, u))
+                lines.append(L_mb(0, 0, 1, n, 1 + n % 7, w, u))
+                lines.append(L_d("dmv", ("dot", "dot_t")[n % 2], own, (1, n, n), w, u))
+                lines.append(L_d("dvm", ("dot", "t_dot")[n % 2], own, (n, n, 1), w, u))
+                # X = [u w] (n x 2): X^T X has the residue off the diagonal
+                X = [v_ for pair in zip(u, w) for v_ in pair]
+                lines.append(L_xtx(n, X))
+                lines.append(L_d("dmm", "t_dot", own, (n, 2, n, 2), X, X))
+                lines.append("ses M 0 %d 2 %s | dmm t_dot %d 0 0 | V 1 %d %s | V 2 %d %s | dvv %s %d 1 2 | dvv %s %d 2 1" % (
+                    n, hs(X), (1, 3)[n % 2], n, hs(u), n, hs(w), meth, (1, 3)[n % 2], meth, (3, 1)[n % 2]))
+                cover["cancel_matrix"] += 7
+    # (b) exact cancellation down to one tiny product sitting in the remainder loop
+    for n in [k for k in lens if k >= 3]:
+        e = -48 if n < 32 else -44
+        for slot_rep in range(1 if quick else 3):
+            x, y = tiny_pair(rng, n, e)
+            meth, own = mo()
+            lines.append(L_d("dvv", meth, own, (n, n), x, y))
+            lines.append(L_d("dvv", meth, (own + 1) % 4, (n, n), y, x))
+            cover["cancel_tiny_exact"] += 2
+            x, y = tiny_pair(rng, n, -60, varied=True)
+            meth, own = mo()
+            lines.append(L_d("dvv", meth, own, (n, n), x, y))
+            x, y = tiny_pair(rng, n, rng.choice([-60, -75, -100]))
+            lines.append(L_d("dvv", meth, (own + 2) % 4, (n, n), x, y))
+            cover["cancel_tiny_tie"] += 2
+            if n <= 24:
+                x, y = tiny_pair(rng, n, e)
+                lines.append(L_mm(0, 0, 1, n, x, y))
+                lines.append(L_d("dmv", "dot", own, (1, n, n), x, y))
+                cover["cancel_matrix"] += 2
+    # (c) exactly zero inner products of non-zero vectors
+    for n in [2, 4, 6, 10, 12, 14, 18, 20, 22, 26, 28, 30, 36, 44, 52, 60, 100, 204]:
+        for rep in range(1 if quick else 4):
+            x, y = pm_orthogonal(rng, n)
+            meth, own = mo()
+            lines.append(L_d("dvv", meth, own, (n, n), x, y))
+            k1, k2 = float(rng.randint(1, 9)), float(rng.randint(1, 9))
+            a = [k1, k2] * (n // 2)
+            b = [-k2, k1] * (n // 2)
+            lines.append(L_d("dvv", meth, (own + 1) % 4, (n, n), a, b))
+            cover["cancel_zero"] += 2
+            if n <= 28:
+                lines.append(L_mm(0, 1, 2, 2, x + y, a + b))      # 2 x n times (2 x n)^T
+                cover["cancel_matrix"] += 1
+
+
 def zero_dim_stratum(rng, tier, lines, cover):
     """Every entry point with a zero somewhere in the shapes (zero rows: is_matrix divides by the row count and panics,
     conformable or not; zero columns with positive row counts: empty / all-zero results), decided by the oracle."""
